@@ -381,6 +381,17 @@ func WaitIdle() {
 	}
 }
 
+// KillReaders makes every sleeping Kevent call return EBADF (as if the kqueue
+// had been closed under it) while the descriptors stay valid, so that a reader
+// goroutine which nothing else would wake runs its clean-up now and cannot
+// close descriptor numbers of a later Watcher.
+func KillReaders() {
+	mu.Lock()
+	defer mu.Unlock()
+	kqs = map[int]*kqueue{}
+	cond.Broadcast()
+}
+
 // Idle reports whether every kqueue has nothing pending and its reader asleep
 // in Kevent right now.
 func Idle() bool {
